@@ -90,6 +90,25 @@ func GenHistory(r *kit.Rng, backend string, al Alphabets) *History {
 		}
 		h.Ops = append(h.Ops, genOp(r, pk, al))
 	}
+	// TTL window probe: a TTL write at a clock value off the whole second, then point reads one
+	// millisecond before the expiry, at it and after it (the row must be visible up to, not including,
+	// write time + ttl seconds, whatever the sub-second part of the write time was)
+	if r.Chance(2, 5) {
+		pk, cc := kit.Pick(r, hot), kit.Pick(r, al.CCs)
+		ttl := 1 + r.Intn(3)
+		frac := kit.Pick(r, []int64{1, 250, 500, 999})
+		probe := []*Op{{Op: "Advance", Ms: frac}}
+		if r.Bool() {
+			probe = append(probe, &Op{Op: "Ins", PK: pk, CC: cc, V: "7631", TTL: ttl})
+		} else {
+			probe = append(probe, &Op{Op: "Put", PK: pk, CC: cc, V: "7630"}, &Op{Op: "Cas", PK: pk, CC: cc, Old: "7630", V: "7631", TTL: ttl})
+		}
+		probe = append(probe, &Op{Op: "Advance", Ms: int64(ttl)*1000 - frac}, &Op{Op: "TTLGet", PK: pk, CC: cc},
+			&Op{Op: "Advance", Ms: frac - 1}, &Op{Op: "TTLGet", PK: pk, CC: cc}, &Op{Op: "QueryTTL", PK: pk, CC: cc}, &Op{Op: "TTLRead", PK: pk},
+			&Op{Op: "Advance", Ms: 1}, &Op{Op: "TTLGet", PK: pk, CC: cc}, &Op{Op: "Get", PK: pk, CC: cc})
+		at := r.Intn(len(h.Ops) + 1)
+		h.Ops = append(h.Ops[:at:at], append(probe, h.Ops[at:]...)...)
+	}
 	// final sweep: everything observable
 	for _, pk := range hot {
 		h.Ops = append(h.Ops, &Op{Op: "TTLRead", PK: pk}, &Op{Op: "Read", PK: pk})
